@@ -543,7 +543,10 @@ func DeleteConflicts(uuid dvid.UUID, data DataService, oldParents, newParents []
 			return err
 		}
 		parentsV[i] = oldV
-		if newParents[i] != dvid.NilUUID {
+		// A parent that needed no extension node so far comes back as its own UUID from an earlier
+		// call (another data instance of the same resolve): deletions must not go into that
+		// committed version, so it still has no extension node.
+		if newParents[i] != dvid.NilUUID && newParents[i] != oldUUID {
 			newV, err := manager.versionFromUUID(newParents[i])
 			if err != nil {
 				return err
